@@ -626,7 +626,7 @@ func (ex *Exec) makeSliceOf(et types.Type, lt, ct *Term) *SliceVal {
 		c = int(ex.Concretize(ct, "make cap"))
 	}
 	if c > ex.cfg.maxAllocCells {
-		panic(pathEnd{kind: "bound", msg: fmt.Sprintf("allocation of %d elements exceeds engine bound", c)})
+		panic(pathEnd{kind: "bound", msg: fmt.Sprintf("allocation of %d elements exceeds engine bound in %s", c, ex.whereNow())})
 	}
 	a := &ArrObj{e: make([]Value, c), et: et, id: ex.nextID()}
 	if c > 0 {
